@@ -58,6 +58,13 @@ KERNELS = [
          params=[('next_file_end', 'Int'), ('next_piece_boundary_index', 'Int')], ret='Bool'),
     dict(name='queueSize', file='torf/_torrent.py', func='Torrent.generate', pick=('kwarg', 'queue_size'),
          params=[('hasher_threads', 'Int')], ret='Int'),
+    # --- the out-of-memory handler of the reader (C04): the bound of the piece queue after one effective call, and
+    #     whether the handler goes on (bound changed) or gives up (raises ReadError(ENOMEM))
+    dict(name='oomNewMaxsize', file='torf/_generate.py', func='Reader._handle_oom', pick=('assign', 'new_maxsize'),
+         params=[('old_maxsize', 'Int')], ret='Int'),
+    dict(name='oomGoesOn', file='torf/_generate.py', func='Reader._handle_oom',
+         pick=('if-test-guarding', 'self._piece_queue.maxsize = new_maxsize'),
+         params=[('new_maxsize', 'Int'), ('old_maxsize', 'Int')], ret='Bool'),
     dict(name='forceGenerate', file='torf/_generate.py', func='GenerateCallback._force_callback', pick=('return',),
          atoms={'exceptions': 'has_exc'},
          params=[('has_exc', 'Bool'), ('pieces_done', 'Int'), ('pieces_total', 'Int')], ret='Bool'),
@@ -234,6 +241,16 @@ class Tr:
                 a = n.args[0]
                 if isinstance(a, ast.BinOp) and isinstance(a.op, ast.Div):
                     return f'({self.int_(a.left)} / {self.int_(a.right)})'
+                if isinstance(a, ast.BinOp) and isinstance(a.op, ast.Mult):
+                    # int(x * 0.9): the float constant is read as the decimal fraction it is written as; checked here
+                    # for every x in 0 .. 200000 against Python's own float arithmetic (beyond that: trusted base)
+                    for x, c in ((a.left, a.right), (a.right, a.left)):
+                        if isinstance(c, ast.Constant) and isinstance(c.value, float):
+                            from fractions import Fraction
+                            fr = Fraction(repr(c.value))
+                            if fr <= 0 or any(int(v * c.value) != v * fr.numerator // fr.denominator for v in range(200001)):
+                                raise CannotTranslate(f'float constant {c.value!r}: exact integer reading does not agree')
+                            return f'(({self.int_(x)} * ({fr.numerator} : Int)) / ({fr.denominator} : Int))'
                 if f == 'int':
                     return self.int_(a)
             if f == 'math.ceil' and len(n.args) == 1:
